@@ -2,10 +2,10 @@ from props_common import COMMON_TRUSTED
 
 CONFIG = {
     "areas": ["fedcheck"],
-    "lean": ["VProps.C14", "VProps.C14Compose"],
-    "sources": ["VProps/C14.lean", "VProps/C14Compose.lean", "VModel/FedCheck.lean", "VModel/FedCheckSpec.lean", "VModel/FedCheckInst.lean",
+    "lean": ["VProps.C14", "VProps.C14Compose", "VProps.C14Compose2"],
+    "sources": ["VProps/C14.lean", "VProps/C14Compose.lean", "VProps/C14Compose2.lean", "VModel/FedCheck.lean", "VModel/FedCheckSpec.lean", "VModel/FedCheckInst.lean",
                 "VProofs/FedCheck.lean", "VProofs/FedCheckLog.lean", "VProofs/FedCheckChain.lean"],
-    "theorems": ["V.C14.state_response_signed_and_allowed", "V.C14.state_response_dropped_why", "V.C14.composedOracles_addIdem", "V.C14.state_response_fails_iff", "V.C14.state_response_exact", "V.C14.state_response_sound", "V.C14.send_join_accept_iff", "V.C14.retry_terminates", "V.C14.checkAllowed_terminates", "V.C14.at_state_iff", "V.C14.slotClash_of_allState", "V.C14.auth_chain_iff", "V.C14.auth_chain_iff_table", "V.C14.auth_chain_iff_capped", "V.C14.atStateCited_eq", "V.FedCheck.tableProvider_tableLike", "V.FedCheck.capProvider_tableLike", "V.FedCheck.loopAE_calls", "V.C14.load_classification", "V.C14.collect_mem", "V.C14.collect_no_panic", "V.C14.padd_idem", "V.C14.authOracles_addIdem", "V.C14.authOraclesBy_addIdem", "V.C14.backfill_sound", "V.C14.tableProvider_provOK", "V.FedCheck.retryAE_eq_stepC", "V.FedCheck.checkAllowed_contract", "V.FedCheck.verifyEventAuthChain_log", "V.FedCheck.chainStep_post"],
+    "theorems": ["V.C14.send_join_accepted_signed_and_allowed", "V.C14.send_join_accepts_iff_allowed", "V.C14.auth_chain_accepts_allowed", "V.C14.auth_chain_accepts_allowed_table", "V.C14.at_state_allowed", "V.C14.load_results_signed", "V.C14.state_response_signed_and_allowed", "V.C14.state_response_dropped_why", "V.C14.composedOracles_addIdem", "V.C14.state_response_fails_iff", "V.C14.state_response_exact", "V.C14.state_response_sound", "V.C14.send_join_accept_iff", "V.C14.retry_terminates", "V.C14.checkAllowed_terminates", "V.C14.at_state_iff", "V.C14.slotClash_of_allState", "V.C14.auth_chain_iff", "V.C14.auth_chain_iff_table", "V.C14.auth_chain_iff_capped", "V.C14.atStateCited_eq", "V.FedCheck.tableProvider_tableLike", "V.FedCheck.capProvider_tableLike", "V.FedCheck.loopAE_calls", "V.C14.load_classification", "V.C14.collect_mem", "V.C14.collect_no_panic", "V.C14.padd_idem", "V.C14.authOracles_addIdem", "V.C14.authOraclesBy_addIdem", "V.C14.backfill_sound", "V.C14.tableProvider_provOK", "V.FedCheck.retryAE_eq_stepC", "V.FedCheck.checkAllowed_contract", "V.FedCheck.verifyEventAuthChain_log", "V.FedCheck.chainStep_post"],
     "rule": "fedcheck: /state and /send_join responses, auth chains, state-at-event checks, LoadAndVerify inputs and backfill transactions built "
             "from generated rooms (create, power levels, join rules, 3-6 members, re-joins, topic changes, messages; events carry proper auth_events "
             "chosen as StateNeededForAuth would, prev_events chains, valid content hashes and are read back through NewEventFromUntrustedJSON) for "
